@@ -1,6 +1,6 @@
 (* C03, BC6H: the regenerated bit layout equals the specification's, whose structure is checked; reserved modes
    decode to zero; interpolation is the exact weighted average rounded to nearest. *)
-From DDSV Require Import base.Machine model.BC7 model.BC6 gen.GenBC gen.GenBC6 spec.SpecBC6Tables spec.SpecBC7Tables.
+From DDSV Require Import base.Machine model.BC7 model.BC6 gen.GenBC gen.GenBC6 spec.SpecBC6Tables spec.SpecBC7Tables proofs.BC7Proofs.
 Local Open Scope Z_scope.
 
 Theorem bc6_tables_tie : bc6_two_fields = spec_bc6_two_fields.
@@ -25,8 +25,8 @@ Theorem bc6_tables_structure :
 Proof. vm_compute. repeat split; reflexivity. Qed.
 
 (* reserved modes (low five bits 10011, 10111, 11011, 11111) decode to all zeros *)
-Theorem bc6_reserved_zero ft p2 signed b : Z.of_N (le128 b) mod 4 = 3 -> 4 <= (Z.of_N (le128 b) / 4) mod 8 ->
-  bc6_decode_with ft p2 signed b = zero_block.
+Theorem bc6_reserved_zero ix ft p2 signed b : Z.of_N (le128 b) mod 4 = 3 -> 4 <= (Z.of_N (le128 b) / 4) mod 8 ->
+  bc6_decode_with ix ft p2 signed b = zero_block.
 Proof.
   intros H1 H2. unfold bc6_decode_with. cbv zeta. rewrite H1. cbn [Z.eqb].
   replace (4 <=? Z.of_N (le128 b) / 4 mod 8) with true by (symmetry; apply Z.leb_le; exact H2). reflexivity.
@@ -55,4 +55,25 @@ Proof.
   - intros c. unfold unquantize. cbn [negb]. replace (16 <=? bits + 1) with false by (symmetry; apply Z.leb_gt; lia).
     rewrite Z.abs_opp. destruct (Z.ltb_spec (- c) 0), (Z.ltb_spec c 0); try lia.
     + assert (c = 0) by lia. subst c. cbn. reflexivity.
+Qed.
+
+(* the decoder as implemented (Indexes::decompress_single_index, tables as they are in the source now) equals the
+   decoder over the frozen specification tables that reads the indices one by one with narrower anchors *)
+Lemma anchors_of_p2 p : In (0%N :: snd (nth p spec_partition2 ([], []))) all_anchor_lists.
+Proof.
+  unfold all_anchor_lists. destruct (nth_in_or_default p spec_partition2 ([], [])) as [H|H].
+  - right. apply in_map_iff. eexists. split; [reflexivity|]. apply in_or_app. left. exact H.
+  - rewrite H. left. reflexivity.
+Qed.
+Theorem bc6_model_eq_spec signed blk : bc6_model signed blk = bc6_spec signed blk.
+Proof.
+  unfold bc6_model, bc6_spec. rewrite bc6_tables_tie. destruct tables_tie as [-> _].
+  unfold bc6_decode_with. cbv zeta.
+  assert (H1 : forall s code, decode_one impl_indices signed code s = decode_one spec_indices signed code s).
+  { intros s code. unfold decode_one. cbv zeta. rewrite indices_eq; [reflexivity|cbn; tauto|left; reflexivity]. }
+  assert (H2 : forall s code, decode_two impl_indices signed spec_bc6_two_fields spec_partition2 code s = decode_two spec_indices signed spec_bc6_two_fields spec_partition2 code s).
+  { intros s code. unfold decode_two. destruct (find _ spec_bc6_two_fields) as [row|]; [|reflexivity].
+    destruct (two_params code) as [a0 [[dr dg] db]]. cbv zeta.
+    rewrite indices_eq; [reflexivity|cbn; tauto|apply anchors_of_p2]. }
+  rewrite !H1, !H2. reflexivity.
 Qed.
